@@ -21,7 +21,7 @@ RULE = (
     "8..64, rank 1-4, tile depth 1-3, optionally a dynamic outermost bound of one dimension (any) resolved at run time) is lowered by memref-to-snax; the emitted size "
     "arithmetic is executed and the snax.alloc size operand must be >= highest byte address the layout can touch + 1 (independent layout "
     "oracle). place: functions with 1-12 L1 allocs (different sizes, element types, alignments) at top level, subviews, casts and tagged uses "
-    "in straight-line code and nested in scf.for (0-2 trips) / scf.if, joins of two buffers through arith.select / scf.if results / loop-carried values, in 15% of the cases a second function with its own buffers called from the first, lowered by memref-to-snax,canonicalize,snax-allocate{mode=static|"
+    "in straight-line code and nested in scf.for (0-2 trips) / scf.if, joins of two buffers through arith.select / scf.if results / loop-carried values / scf.while results, in a fifth of the static / minimalloc / auto cases some buffers live in a second memory (L3, written as snax.alloc), in 15% of the cases a second function with its own buffers called from the first, lowered by memref-to-snax,canonicalize,snax-allocate{mode=static|"
     "minimalloc|auto|dynamic} for a seeded L1 window (start, capacity) and a seeded packing order of the stub solver; the result is executed "
     "on a memory with ownership shadow: every use (first and last byte of its view) must stay inside its buffer's allocation, inside the "
     "window and aligned as requested, and two buffers whose use intervals overlap in time must not overlap in address. Degenerate use of the "
@@ -46,7 +46,7 @@ def gen_case(rng, tier):
                 case["dynstep"] = True
         return case
     mode = rng.choice(["static", "minimalloc", "minimalloc", "auto", "dynamic"])
-    ast = AG.AllocGen(rng, views=rng.random() < 0.7).program(callee=rng.random() < 0.15)
+    ast = AG.AllocGen(rng, views=rng.random() < 0.7, two_mem=rng.random() < 0.2 and mode != "dynamic").program(callee=rng.random() < 0.15)
     return {
         "fam": "place",
         "ast": ast,
@@ -181,6 +181,7 @@ def run_place(case, out):
                 out.update(status="violation", oracle="out-of-allocation", message=f"use {tag} touches bytes [{lo:#x}, {hi:#x}] outside its buffer (site {site}) at [{base:#x}, {base + nbytes:#x})")
                 return out
             if case["mode"] != "dynamic":
+                start, cap = (0x80000000, 10**9) if a.get("space") == "L3" else case["window"]  # L3 keeps the registered default window
                 if base < start or base + nbytes > start + cap:
                     out.update(status="violation", oracle="outside-window", message=f"buffer of site {site} at [{base:#x}, {base + nbytes:#x}) lies outside the L1 window [{start:#x}, {start + cap:#x})")
                     return out
